@@ -68,6 +68,13 @@ class VerifyMixin(object):
             st.env[name] = self.store_form(st, self.adapt(gv, ty), ty)
         if c.yields is not None:
             st.env["yields_"] = core.lempty(c.yields)
+        for name, ty in c.locals.items():
+            if name not in st.env:
+                # a declared local read before its first assignment would be an UnboundLocalError: assumed not to happen;
+                # it starts as an arbitrary value of its type
+                v = fresh(ty, "unbound_" + name)
+                st.assume(*wf(v))
+                st.env[name] = v
         old = st.copy()
         old.old = old
         st.old = old
